@@ -55,10 +55,12 @@ func checkC14(c *Ctx) {
 		"each case through env.Source (real environment; also vs the Lean model), an alias-wrapped JSON decoder as ez builds it, flag.Set and pflag.Set; oracle per leaf (primary or alias value, unset, error naming the field). " +
 		"plus a stream of configs holding a slice / array of structs whose ELEMENT fields (by value: string, int, bool, struct, named scalar; pointer; slice) carry aliases, through the alias-wrapped JSON decoder, four patterns per element and field (set = non-zero there). " +
 		"plus a stream of configs whose aliased fields are themselves collections ([]struct, []struct with aliased element fields, []string, []int, string maps), each supplied as a list of 0-3 entries (35% explicitly empty) under neither / primary / alias / both, same decoder. " +
+		"plus ez itself (JSON / YAML entry points, private empty flag set): aliased leaves at two depths x four patterns x FileFieldNameEncoder none / lower_snake / kebab / UPPER_SNAKE / lowerCamel, file keys written in the file's naming convention. " +
 		"non-trivial: an aliased leaf below the top level or >= 2 aliased leaves; distinct = by type + pattern vector + source"
 	n := c.scale(1500, 20000)
 	c14Elements(c, n/3)
 	c14Collections(c, n/3)
+	c14Ez(c, c.scale(300, 4000))
 	for i := 0; i < n; i++ {
 		g := &envTypeGen{r: r, used: map[string]bool{}, alias: true, embed: r.Chance(40)}
 		T := g.genStruct(1+r.Intn(3), nil, nil)
@@ -102,6 +104,11 @@ func checkC14(c *Ctx) {
 			for k := range sub {
 				if !src.supports(sub[k].typ) {
 					sub[k].pattern = 0
+				}
+				if sub[k].envOnly && src.name != "env" {
+					// `dialsenvalias` means nothing to this source: the leaf is an ordinary one here
+					sub[k].pattern = []int{0, 1, 0, 1}[sub[k].pattern]
+					sub[k].aliasOf = ""
 				}
 			}
 			class, errText, out, wants, skip := src.run(c, T, PT, sub, cs)
